@@ -2,7 +2,10 @@
 # Runs several quick checks against a PROPERTY-PRESERVING change of /repo (scratch copy) and lists every alarm (each is a false
 # alarm to be explained or corrected):  tools/benign_run.sh <patch.diff> <out.log> C01 C02 ...
 P=$1; OUT=$2; shift 2
-PROPS="$*"
-MUTANT_CMD="bash -c 'for p in $PROPS; do echo == \$p; ./check \$p --tier quick 2>&1 | grep -E \"^(VIOLATION|KNOWN-FINDING|DRIFT|check finished|TOOL)\" | cut -c1-260; done'" \
-  /verif/tools/mutant_run.sh "$P" -- > "$OUT" 2>&1
+SCR=$(mktemp /tmp/benign-XXXXXX.sh)
+cat > $SCR <<EOS
+for p in $*; do echo "== \$p"; ./check \$p --tier quick 2>&1 | grep -E "^(VIOLATION|KNOWN-FINDING|DRIFT|check finished|TOOL)" | cut -c1-260; done
+EOS
+MUTANT_CMD="bash $SCR" /verif/tools/mutant_run.sh "$P" -- > "$OUT" 2>&1
+rm -f $SCR
 grep -E "^== |^VIOLATION|check finished|TOOL" "$OUT" | cut -c1-200
